@@ -364,6 +364,43 @@ def job_monitor(i, d, k_lo=1, k_hi=1 << 60):
     return res
 
 
+def job_free_running(rounds):
+    """SUPPLEMENTARY, never deciding: three free-running threads evaluate pool statements under a 1 microsecond switch
+    interval; mismatches are reported as a NOTE and counted in the evidence only (not replayable)."""
+    import threading
+    res = Result()
+    world()
+    old = sys.getswitchinterval()
+    sys.setswitchinterval(1e-6)
+    bad = []
+    try:
+        for r in range(rounds):
+            outs = {}
+
+            def body(i):
+                si = (r * 3 + i) % len(POOL)
+                di = i % 3
+                try:
+                    outs[i] = (si, di, ('ok', evaluate(si, di)))
+                except Exception as e:
+                    outs[i] = (si, di, ('exc', type(e).__name__, str(e)[:300]))
+            ths = [threading.Thread(target=body, args=(i,)) for i in range(3)]
+            for th in ths:
+                th.start()
+            for th in ths:
+                th.join()
+            for i, (si, di, o) in outs.items():
+                if o[:2] != baseline(si, di)[:2]:
+                    bad.append((r, si, di, o))
+    finally:
+        sys.setswitchinterval(old)
+    res.extra['free_running_rounds_supplementary'] = rounds
+    res.extra['free_running_mismatches_supplementary'] = len(bad)
+    if bad:
+        res.notes.append('C18 supplementary free-running pass: %d mismatching evaluations, e.g. %r (not deciding)' % (len(bad), bad[0]))
+    return res
+
+
 def job_eval_path(pairs, bound):
     """yaql.eval(): module-level cached engine, expression cache and default context."""
     res = Result()
@@ -453,6 +490,8 @@ def jobs(tier, seed):
         for lo in range(1, n + 1, mstep):
             out.append(('monitor-%02d-%05d' % (i, lo), 'job_monitor', (i, d, lo, lo + mstep)))
     ep = [((1, 0), (2, 1)), ((8, 0), (8, 1))] if quick else [((a, 0), (b, 1)) for a, b in ((1, 2), (8, 8), (0, 14), (5, 5), (7, 6), (3, 3))]
+    if not quick:
+        out.append(('free-running-supplementary', 'job_free_running', (600,)))
     out.append(('evalpath', 'job_eval_path', (ep, 1 if quick else 2)))
     # the measurements above evaluated statements in this (parent) process: workers must not inherit that world
     _S.clear()
